@@ -88,3 +88,71 @@ package types
 //@                            v.consensusState.Root == as(cobj, ConsensusState).Root && v.contractAddr == self.ContractAddress && str(v.commitment) == enc64(sequence) &&
 //@                            str(v.proofKey) == keccak(keyrepr(cleanPt(sourceChain, destChain)) ++ lpad(bigbytes(104), 32)) &&
 //@                            v.bscProof == as(jsondec(str(proof)), Proof))
+//@
+//@ // ---- C17 (header chain)
+//@ // Keys of the recent-signer records inside the client store: "recentSingers/<revision>-<height>".
+//@ subkeyfn keyRecentSinger(s) = recentSigner(s.Height.RevisionNumber: u64, s.Height.RevisionHeight: u64)
+//@
+//@ // A-CRYPTO: the seal. sealer(h, chain) is the address whose key signed the header's seal hash for this chain id;
+//@ // sealOk says a public key can be recovered from the 65 seal bytes at all.
+//@ spec sealOk(h: obj, chain: obj): bool
+//@ spec sealer(h: obj, chain: obj): str
+//@ func ecrecover(header, chainId) (signer, err)
+//@   props C17
+//@   trusts ok:  err == nil <==> len(header.Extra) >=s 65 && sealOk(pack(header), chainId)
+//@   trusts who: err == nil ==> str(signer) == sealer(pack(header), chainId)
+//@
+//@ // the recent-signer record of a height is removed, nothing else changes (the key is the one keyRecentSinger builds)
+//@ func DeleteSigner(store, height)
+//@   props C17
+//@   modifies tibc
+//@   trusts def: tibc == old(tibc)[recentSigner(clientOf(store), height.RevisionNumber, height.RevisionHeight) := none]
+//@
+//@ // the validator list of a client state as a set of addresses; nvals is the number of distinct addresses in it
+//@ spec isVal(V: obj, a: str): bool = exists i: i64 :: 0 <=s i && i <s seqlen(V) && addr20(seqstr(V, i)) == a
+//@ spec valset(V: obj): set_str
+//@ spec nvals(V: obj): i64
+//@ axiom valset.def: forall V: obj, a: str :: valset(V)[a] <==> isVal(V, a)
+//@ axiom nvals.bounds: forall V: obj :: 0 <=s nvals(V) && nvals(V) <=s seqlen(V) && (0 <s seqlen(V) ==> 0 <s nvals(V))
+//@
+//@ // representation invariant of the recent-signer records of client c whose latest header has number `latest`:
+//@ // no record lies above the latest header and there is at most one record per block number
+//@ spec recentsOk(S: store, c: str, latest: u64): bool = forall rn: u64, h: u64 :: present(S[recentSigner(c, rn, h)]) ==>
+//@        h <=u latest && (forall rn2: u64 :: present(S[recentSigner(c, rn2, h)]) ==> rn2 == rn)
+//@
+//@ // the snapshot: the validator set of the client state as a set of addresses, and the recent-signer records of the
+//@ // client store as a map from block number to address
+//@ func (ClientState).snapshot(cdc, store) (snap, err)
+//@   props C17
+//@   let c = clientOf(store)
+//@   trusts number: err == nil ==> snap != nil && snap.Number == self.Header.Height.RevisionHeight
+//@   trusts vals:   err == nil ==> domset(snap.Validators) == valset(self.Validators)
+//@   trusts card:   err == nil ==> len(snap.Validators) == nvals(self.Validators)
+//@   trusts recents.dom: err == nil ==> (forall h: u64 :: mapdom(snap.Recents, h) <==> (exists rn: u64 :: present(tibc[recentSigner(c, rn, h)])))
+//@   trusts recents.val: err == nil ==> (forall h: u64 :: mapdom(snap.Recents, h) ==> (exists rn: u64 :: present(tibc[recentSigner(c, rn, h)]) && mapval(snap.Recents, h) == addr20(val(tibc[recentSigner(c, rn, h)]))))
+//@
+//@ // in-turn: the validator at position (Number+1) mod N of the ascending address order of the set
+//@ spec inTurn(S: set_str, number: u64, a: str): bool
+//@ func (*snapshot).inturn(validator) (result)
+//@   props C17
+//@   trusts def: result == inTurn(domset(self.Validators), self.Number, str(validator))
+//@
+//@ // verifySeal: the header is sealed by a member of the validator set that sealed none of the blocks above
+//@ // number - (N/2+1), with the difficulty of its turn; the sealer is recorded for this block number
+//@ func verifySeal(cdc, store, clientState, header) (err)
+//@   props C17
+//@   modifies tibc
+//@   let c      = clientOf(store)
+//@   let chain  = bigof(clientState.ChainId)
+//@   let signer = sealer(pack(header), chain)
+//@   let number = header.Height.RevisionHeight
+//@   let limit  = nvals(clientState.Validators) / 2 + 1
+//@   requires recents: recentsOk(tibc, c, number - 1)
+//@   ensures sound.sealed:  err == nil ==> sealOk(pack(header), chain) && signer == addr20(str(header.Coinbase))
+//@   ensures sound.member:  err == nil ==> valset(clientState.Validators)[signer]
+//@   ensures sound.recent:  err == nil ==> (forall rn: u64, h: u64 :: present(old(tibc)[recentSigner(c, rn, h)]) && addr20(val(old(tibc)[recentSigner(c, rn, h)])) == signer ==> !(h >u number - limit))
+//@   ensures sound.turn:    err == nil ==> header.Difficulty == ite(inTurn(valset(clientState.Validators), clientState.Header.Height.RevisionHeight, signer), 2, 1)
+//@   ensures record:        err == nil ==> tibc == old(tibc)[recentSigner(c, header.Height.RevisionNumber, number) := signer]
+//@   ensures recents.kept:  err == nil && number != 0 ==> recentsOk(tibc, c, number)
+//@   loop #0 invariant seen: forall h: u64 :: visited(h) && mapval(snap.Recents, h) == str(signer) ==> !(h >u number - limit)
+//@   loop #0 invariant pure: tibc == old(tibc)
